@@ -128,7 +128,9 @@ fn strategy_wide() -> impl Strategy<Value = Case> {
 
 fn check(c: &Case, st: &mut Stats) -> Result<(), String> {
     let (t, f) = (c.t(), c.f());
-    let data = make_data(data_class_from(if c.class < 3 { 4 } else { 0 }), c.seed, f);
+    // position-coded (any misplacement changes a value), random, and - one case in ten - all-zero
+    // contents: blocks with identical bytes must still get their own numbers and positions
+    let data = make_data(data_class_from(if c.class < 3 { 4 } else if c.class == 4 && c.seed % 2 == 0 { 1 } else { 0 }), c.seed, f);
     let want = rf::object_layout(&data, t, c.z, c.n, c.al);
     let (kl, ks, zl, zs) = rf::partition(c.kt as u64, c.z as u64);
     let (tl, ts, nl, ns) = rf::partition(c.tu as u64, c.n as u64);
@@ -316,7 +318,7 @@ fn signature(_: &Case, msg: &str) -> String {
 }
 
 pub fn run(ctx: &Ctx, rep: &mut Report) {
-    rep.rule = "generated (F, T, Z, N, Al, data): Al in {1,2,3,4,8}, T/Al in 1..=24, N in 1..=T/Al, Kt in 1..=90 (weighted; also 120..135 and 250..700), Z in 1..=min(Kt,12) and in one case of eight 1..=min(Kt,255), F=(Kt-1)*T+r, biased to Kt mod Z != 0 and (T/Al) mod N != 0; data position-coded or random. Plus a group of large objects (Kt in 30 000..140 000 weighted to 65 000..68 500, Z in 128..=255, T <= 8: running symbol indices beyond 2^16). Plus a group of wide symbols (Al in {1,2,3,4,7,8,16,32,64,128,255}, T up to 65535, N across 255/256/257 and up to T/Al, objects of at most 14 symbols). Plus an exhaustive sweep of all (Kt <= 8 quick / 20 thorough, Z <= Kt, T/Al <= 5 quick / 8 thorough, N <= T/Al, Al in {1,4}). Oracle: reference layout by index formula (Partition, block/sub-block/symbol offsets) for every source packet's (SBN, ESI, payload); partition() and calculate_block_offsets() against the reference; then the decoder is fed all source packets, an erasure pattern + repair packets, one block decoder with all source packets, and one block decoder with a single batch (erasures + H+3 extra repair symbols, which enters the binary-only fast path), and must return the object / block. Non-trivial = N>1 with TL != TS, or Z>1 with KL != KS, or F mod T != 0; distinct by (F,T,Z,N,Al).".into();
+    rep.rule = "generated (F, T, Z, N, Al, data): Al in {1,2,3,4,8}, T/Al in 1..=24, N in 1..=T/Al, Kt in 1..=90 (weighted; also 120..135 and 250..700), Z in 1..=min(Kt,12) and in one case of eight 1..=min(Kt,255), F=(Kt-1)*T+r, biased to Kt mod Z != 0 and (T/Al) mod N != 0; data position-coded, random or (one case in ten) all-zero. Plus a group of large objects (Kt in 30 000..140 000 weighted to 65 000..68 500, Z in 128..=255, T <= 8: running symbol indices beyond 2^16). Plus a group of wide symbols (Al in {1,2,3,4,7,8,16,32,64,128,255}, T up to 65535, N across 255/256/257 and up to T/Al, objects of at most 14 symbols). Plus an exhaustive sweep of all (Kt <= 8 quick / 20 thorough, Z <= Kt, T/Al <= 5 quick / 8 thorough, N <= T/Al, Al in {1,4}). Oracle: reference layout by index formula (Partition, block/sub-block/symbol offsets) for every source packet's (SBN, ESI, payload); partition() and calculate_block_offsets() against the reference; then the decoder is fed all source packets, an erasure pattern + repair packets, one block decoder with all source packets, and one block decoder with a single batch (erasures + H+3 extra repair symbols, which enters the binary-only fast path), and must return the object / block. Non-trivial = N>1 with TL != TS, or Z>1 with KL != KS, or F mod T != 0; distinct by (F,T,Z,N,Al).".into();
     let n = ctx.tier.pick(200_000u64, 2_000_000);
     rep.absorb("generated", run_sharded("C05", "generated", ctx.seed, n, 32, strategy, check, to_json, signature));
     // large objects: more than 2^16 symbols in total, spread over many blocks of a few hundred
